@@ -7,7 +7,7 @@ Only parts of this property are within reach of a theorem; they are:
 
 (a) **termination of the resolve loops** on a model of their data (`Model/Worklist.lean`): when the
     loops of `resolveOverLinks`, `traceOutline`/`findBottom` and the clone worklist end, when they
-    cannot end (defects D5, D6, D54), and that the repaired loops always end;
+    cannot end (defects D5, D6, D64), and that the repaired loops always end;
 (b) **error-message table** (`Generated/ErrSites.lean`, re-extracted from the working tree by
     `harness/translate/errsites.py` on every run): every `"…" % args` / `"…".format(args)` in the builder-side
     modules is given as many values as its text consumes, and no function of those modules loads a
@@ -58,7 +58,7 @@ theorem C14_over_climb_detects_own_loop (over : Nat → Option Nat) (self n : Na
   climb_detects self n self h
 
 /-- … and never ends when the over links lead into a cycle that does not contain the frame it started
-from: the test `over == self` cannot fire (defect D54) -/
+from: the test `over == self` cannot fire (defect D64) -/
 theorem C14_over_climb_diverges (over : Nat → Option Nat) (self : Nat) (C : Nat → Prop) (hs : ¬ C self)
     (hC : ∀ k, C k → ∃ j, over k = some j ∧ C j) (hin : ∃ j, over self = some j ∧ C j) :
     ∀ fuel, climb over self fuel self = none := fun fuel => climb_diverges self C hs hC fuel self (Or.inr hin)
@@ -81,7 +81,7 @@ theorem C14_over_climb_counterexample : ¬ C14_over_climb_full := by
 /-- the same three frames in the other order: `b` is resolved first and its own loop is detected -/
 example : resolveOvers (linkOf [some 1, some 0, some 0]) 10 [0, 1, 2] = some .loopError := by decide
 
-/-- **the repaired loops** (a visited list; fixes/D54-over-loop-check.patch, fixes/D06-under-loop-check.patch)
+/-- **the repaired loops** (a visited list; fixes/D64-over-loop-check.patch, fixes/D06-under-loop-check.patch)
 end on every link structure over `n` frames within `n` steps: normally or with the loop error -/
 theorem C14_repaired_loops_terminate (next : Nat → Option Nat) (n : Nat)
     (hb : ∀ k j, next k = some j → j < n) (k : Nat) (hk : k < n) :
